@@ -125,7 +125,7 @@ def csd(s, window=None, detrend='linear'):
 
 
 def csd_to_signal(csd):
-    n = 2 * (len(csd) - 1)
+    n = 2 * (np.shape(csd)[-1] - 1)
     scale = 2 / n / np.sqrt(2)
     return np.fft.irfft(csd / scale, axis=-1)
 
